@@ -72,7 +72,14 @@ func engModelled(t *Target, od bool) bool {
 		return true
 	case "genrule":
 		switch t.Cmd.Op {
-		case "concat", "const", "copydir", "listnames", "fail":
+		case "concat", "const", "copydir", "listnames", "fail", "catall":
+			return len(t.OutDirs) == 0 && len(t.Tools) == 0
+		case "usetool": // the model's UseTool: the tools are labels
+			for _, x := range t.Tools {
+				if !strings.HasPrefix(x, "//") {
+					return false
+				}
+			}
 			return len(t.OutDirs) == 0
 		case "outdir": // the model's OutDir: output_dirs = ["_o"], file sources only, nobody depends on it
 			if !od || len(t.OutDirs) != 1 || t.OutDirs[0] != "_o" || len(t.Outs) == 0 {
@@ -614,7 +621,7 @@ func defKey(s *Spec, label, logPath string) string {
 	return hex.EncodeToString(h[:8])
 }
 
-func engKind(t *Target) string {
+func engKind(t *Target, pkg string) string {
 	switch t.Kind {
 	case "filegroup":
 		return "Filegroup"
@@ -632,6 +639,10 @@ func engKind(t *Target) string {
 		return lib.App("Genrule", lib.App("Const", lib.Str(t.Cmd.Arg)))
 	case "fail":
 		return "(Genrule Fail)"
+	case "catall":
+		return lib.App("Genrule", lib.App("CatAll", lib.Str(pkg)))
+	case "usetool":
+		return "(Genrule UseTool)"
 	case "outdir":
 		if !engModelled(t, true) {
 			panic("engine model covers output_dirs targets only with output_dirs = [_o] and file sources")
@@ -675,7 +686,7 @@ func EngRepoTerm(s *Spec, order []string, logPath string) string {
 		if t.Kind == "text_file" && len(outs) == 0 {
 			outs = []string{t.Name}
 		}
-		ts = append(ts, lib.App("mkT", lib.Str(l), lib.Str(pkg), engKind(t), lib.List(srcs), lib.StrList(outs), lib.Str(defKey(s, l, logPath))))
+		ts = append(ts, lib.App("mkT", lib.Str(l), lib.Str(pkg), engKind(t, pkg), lib.List(srcs), lib.StrList(outs), lib.Str(defKey(s, l, logPath))))
 	}
 	return lib.App("mkR", lib.List(files), lib.List(ts))
 }
